@@ -13,6 +13,7 @@ import CppUtil.Gen.Mcs
 import CppUtil.Model.TClient
 import CppUtil.Gen.Thread
 import CppUtil.Monitor.ThreadMon
+import Driver.ZipfDrv
 
 open CppUtil CppUtil.WClient CppUtil.Monitor
 
@@ -162,7 +163,7 @@ def threadParams (sc : Scen) : TClient.Params :=
 def mkSim (sc : Scen) : Sim :=
   if sc.comp == "thread" then .th (threadParams sc) (TClient.mkClient (threadParams sc) sc.nvars sc.tprogs)
   else if sc.comp == "mcs" then .m mcsParams (MClient.mkClient sc.nlocks sc.kinds sc.progs)
-  else if sc.comp == "opt" then .w (Gen.opt sc.retry) (WClient.mkClient sc.nlocks sc.kinds sc.progs)
+  else if sc.comp == "opt" then .w (Gen.opt sc.retry) { WClient.mkClient sc.nlocks sc.kinds sc.progs with versioned := true }
   else .w (Gen.pess sc.retry) (WClient.mkClient sc.nlocks sc.kinds sc.progs)
 
 def mkRun (sc : Scen) : Run := { sc := sc, sim := mkSim sc }
@@ -194,6 +195,10 @@ def processQ (r : Run) (line : String) (st : Stats) : Run × Stats :=
     let mon0 := if r.sc.comp == "thread" then
         { mon00 with th := threadEvent mon00.th tid (evParts.getD 0 "") (evParts.getD 1 "")
                             ((parseHexOrNat (evParts.getD 4 "0")).getD 0) ((parseHexOrNat (evParts.getD 5 "0")).getD 0) }
+      else if r.sc.comp == "opt" then
+        { mon00 with opt := optEvent mon00.opt tid (evParts.getD 0 "") (evParts.getD 1 "")
+                              ((parseHexOrNat (evParts.getD 4 "0")).getD 0) ((parseHexOrNat (evParts.getD 5 "0")).getD 0)
+                              (evParts.getD 6 "1" == "1") }
       else mon00
     let mon := toks.foldl (fun m tok =>
       let r' := { r with mon := m }
@@ -201,6 +206,22 @@ def processQ (r : Run) (line : String) (st : Stats) : Run × Stats :=
       else if tok.startsWith "G" then stepTok m tok
       else if tok.startsWith "R" && r.sc.comp == "thread" then
         { m with th := threadRes r.sc.seq tid m.th ((r.sc.tprogs.getD tid #[])[((tok.drop 1).toString.splitOn "=").head!.toNat?.getD 0]?) tok }
+      else if tok.startsWith "X" && tok.length > 1 && r.sc.comp == "opt" then { m with opt := optTok m.opt tid tok }
+      else if tok.startsWith "R" && r.sc.comp == "opt" then
+        let m1 := monResult r' tid tok
+        match (tok.drop 1).toString.splitOn "=" with
+        | [ks, res] =>
+          match (r.sc.progs.getD tid #[])[ks.toNat?.getD 0]? with
+          | some (.getver d l) => { m1 with opt := optRes m1.opt tid "getver" d l res }
+          | some (.verify v) => { m1 with opt := optRes m1.opt tid "verify" v 0 res }
+          | some (.cverify v) => { m1 with opt := optRes m1.opt tid "cverify" v 0 res }
+          | some (.tryLock _ d sv) => { m1 with opt := optRes m1.opt tid "try" d sv res }
+          | some (.prep d l) => { m1 with opt := optRes m1.opt tid "prep" d l res }
+          | some (.massign d sv) => { m1 with opt := optRes m1.opt tid "massign" d sv res }
+          | some (.mctor d sv) => { m1 with opt := optRes m1.opt tid "mctor" d sv res }
+          | some (.dtor v) => { m1 with opt := optRes m1.opt tid "dtor" v 0 res }
+          | _ => m1
+        | _ => m1
       else if tok.startsWith "R" then monResult r' tid tok
       else if tok.startsWith "NA" || tok.startsWith "NF" then nodeTok m tok
 
@@ -270,10 +291,11 @@ partial def loop (h : IO.FS.Stream) (cur : Option Run) (pend : Scen) (st : Stats
     let corr := match r.mismatch with
       | some m => s!"mismatch {m}"
       | none => if status == "ok" && !modelDone then "mismatch end: implementation finished, model did not" else "ok"
-    let monS := match r.mon.bad, r.mon.th.bad with
-      | some m, _ => s!"FAIL {m}"
-      | none, some m => s!"FAIL {m}"
-      | none, none => "ok"
+    let monS := match r.mon.bad, r.mon.th.bad, r.mon.opt.bad with
+      | some m, _, _ => s!"FAIL {m}"
+      | none, some m, _ => s!"FAIL {m}"
+      | none, none, some m => s!"FAIL {m}"
+      | none, none, none => "ok"
     let leak := if status == "ok" && monS == "ok" && !r.mon.grants.isEmpty then
       s!"FAIL guard: {r.mon.grants.length} grant(s) never released at the end" else monS
     IO.println s!"RES {r.sc.id} end={status} steps={r.step} corr={corr} ;; mon={leak}"
@@ -303,7 +325,8 @@ partial def loop (h : IO.FS.Stream) (cur : Option Run) (pend : Scen) (st : Stats
   else
     loop h cur pend st
 
-def main (_args : List String) : IO UInt32 := do
+def main (args : List String) : IO UInt32 := do
+  if args == ["zipf"] then return (← ZipfDrv.main)
   let stdin ← IO.getStdin
   let st ← loop stdin none {} {}
   let kinds := ", ".intercalate (st.evKinds.map fun (k, n) => s!"\"{k}\": {n}")
